@@ -2,9 +2,12 @@ import Driver.Common
 import Driver.AstJson
 import Driver.SchemaJson
 import GqlModel.Exec
+import GqlModel.Conforms
 /-! Driver for the executor model (C01, C04, C13, C20):
 `{"schema":…, "doc":<astjson>, "opName":"", "vars":{…}, "world":{…}}` →
-`{"class":"requestError|result|fuelOut", "data":…|null, "errPaths":[…], "log":[…], "kfThunk":[…]}` -/
+`{"class":"requestError|result|fuelOut", "data":…|null, "errPaths":[…], "log":[…], "kfThunk":[…]}`.
+Optional `"checkData": <wire JVal object>` (C04): the response additionally carries `"conforms": bool` = `conformsData`
+(the `Conforms` checker of GqlModel/Conforms.lean) evaluated on THAT data against the request's root selection. -/
 open Lean (Json)
 open GqlModel GqlModel.Exec Driver.SchemaJson
 
@@ -106,16 +109,23 @@ def handle (j : Json) : Except String Json := do
   let opName := (Driver.getStr j "opName").toOption.getD ""
   let vars ← decVars ((j.getObjVal? "vars").toOption.getD (Json.mkObj []))
   let w ← decWorld (← j.getObjVal? "world")
+  let extra : List (String × Json) ← match j.getObjVal? "checkData" with
+    | .ok (.obj kvs) => do
+      let fs ← kvs.toList.mapM (fun (k, v) => do return (k, ← decJVal v))
+      pure [("conforms", Json.bool (conformsData s doc opName vars fs))]
+    | .ok .null => pure []
+    | .ok _ => pure [("conforms", Json.bool false)]      -- data must be an object
+    | .error _ => pure []
   match execute s doc opName vars w with
-  | .requestError what => return Json.mkObj [("class", "requestError"), ("what", what)]
-  | .fuelOut => return Json.mkObj [("class", "fuelOut")]
+  | .requestError what => return Json.mkObj (([("class", "requestError"), ("what", what)] : List (String × Json)) ++ extra)
+  | .fuelOut => return Json.mkObj (([("class", "fuelOut")] : List (String × Json)) ++ extra)
   | .result data errs log kf =>
-    return Json.mkObj [("class", "result"),
+    return Json.mkObj (([("class", "result"),
       ("data", match data with | some fs => encJVal (.obj fs) | none => Json.null),
       ("errPaths", Json.arr (errs.map (fun e => encPath e.1)).toArray),
       ("errDeferred", Json.arr (errs.map (fun e => Json.bool e.2)).toArray),
       ("log", Json.arr (log.map encLog).toArray),
-      ("kfThunk", Json.arr (kf.map encPath).toArray)]
+      ("kfThunk", Json.arr (kf.map encPath).toArray)] : List (String × Json)) ++ extra)
 
 end Driver.Exec
 
